@@ -1,0 +1,26 @@
+//go:build verif
+
+package cluster
+
+// Pause and fault points driven by the verification harness in /verif.
+
+// VerifPauseHook, when set, is called at named points of the shard manager; it
+// may block to force an interleaving.
+var VerifPauseHook func(point string)
+
+// VerifFaultHook, when set, may return an error (or terminate the process) at
+// named points; n is a point specific index, e.g. the chunk index.
+var VerifFaultHook func(point string, n int) error
+
+func verifPause(point string) {
+	if h := VerifPauseHook; h != nil {
+		h(point)
+	}
+}
+
+func verifFault(point string, n int) error {
+	if h := VerifFaultHook; h != nil {
+		return h(point, n)
+	}
+	return nil
+}
